@@ -36,3 +36,29 @@ Proof.
   rewrite Hl. reflexivity.
 Qed.
 Print Assumptions C19_full_width_amount_is_written_verbatim.
+
+(* the text route: what the {2000} parser returns for a segment is the segment's twelve bytes after the marker,
+   exactly as they stand in the text - nothing trimmed, nothing cut, nothing re-interpreted (per-run obligation:
+   the regenerated Parse program of {2000} is guard / marker / raw slice 6..18); validation then demands digits,
+   so an accepted amount read from text is those twelve characters of the text *)
+Theorem C19_parsed_amount_is_the_text_of_the_element : forall rec v,
+  parse_tag tag_Amount rec = POk v ->
+  rune_count rec = 18 /\ 18 <= length rec /\ tv_elems v = [firstn 12 (skipn 6 rec)].
+Proof.
+  intros rec v H. unfold parse_tag in H. cbn [t_parse tag_Amount run_parse t_elems map] in H.
+  change (nn 18) with 18 in H. change (nn 6) with 6 in H.
+  destruct (rune_count rec =? 18) eqn:E; [|discriminate H]. cbn [negb] in H.
+  destruct (slice rec 0 6) as [mk|] eqn:S0; [|discriminate H].
+  destruct (slice rec 6 18) as [a|] eqn:S1; [|discriminate H].
+  injection H as <-. cbn [tv_elems set_nth].
+  unfold slice in S1. destruct ((6 <=? 18) && (18 <=? length rec)) eqn:B; [|discriminate S1].
+  injection S1 as <-. apply andb_true_iff in B as [_ B]. apply Nat.leb_le in B. apply Nat.eqb_eq in E.
+  repeat split; auto.
+Qed.
+Print Assumptions C19_parsed_amount_is_the_text_of_the_element.
+
+Example an_amount_with_a_multibyte_space_is_kept_as_it_stands :
+  match parse_tag tag_Amount (bs "{2000}" ++ [xc2; xa0] ++ bs "00001234567") with
+  | POk v => tv_elems v = [[xc2; xa0] ++ bs "0000123456"] | _ => False end
+  /\ forallb is_digit ([xc2; xa0] ++ bs "0000123456") = false.
+Proof. vm_compute. split; reflexivity. Qed.
